@@ -4,10 +4,13 @@
 mod common;
 mod prim;
 mod pipeline;
+mod c01;
 mod c04;
+mod dynser;
 mod c05;
 mod c06;
 mod tables;
+mod zcore;
 mod c08;
 mod c09;
 mod c10;
@@ -37,6 +40,7 @@ fn main() {
     common::install_panic_hook();
     let code = common::with_big_stack(move || match cmd.as_str() {
         | "dump-tables" => tables::dump(&opts.out, &opts.rest),
+        | "c01" => c01::run(&opts),
         | "c04" => c04::run(&opts),
         | "c05" => c05::run(&opts),
         | "c06" => c06::run(&opts),
